@@ -6,14 +6,25 @@
           spec  = [spec_table, spec_columns]
      [2, variant, frame, rfp, cf]         to_pandas   -> [model, spec]
      [3, bytes]                           csv_parse   -> records
+     [4, copies, store, calls]            a history of to_csv calls on one dataframe object and one
+          destination (Model/ToCsvHist.v) -> [model, spec], one entry per call:
+          model entry = [[file bytes, csv_parse file] or error, destination afterwards ([] none | [bytes])]
+          spec entry  = [[spec_table] or error]
+          store = [[names] ...]  (the caller's column_filter list objects);
+          call  = [frame at call time, rf, cfarg, chunk];  cfarg = [] | [[0, name]] | [[2, k]]
+          copies = 1: to_csv copies the caller's list before list.remove (repaired code), 0: it does not
    frame  = [[name, kind, cells] ...]   kind 0 str (cells = byte lists), 1 int (cells = [hi, lo],
             value hi*2^32+lo), 2 float literal (byte lists), 3 int of dtype int64 (as 1), 4 bool literal
    rf     = [] | [[0, flags]] | [[1, name, flags, own]]
    rfp    = [] | [flags]
    cf     = [] | [[0, name]] | [[1, names]]
-   variant 0 = repaired code, 1 = code before the repairs. *)
+   variant 0 = repaired code, 1 = code before the repairs.
+   Frames with more than 4096 rows: to_csv (repaired code) is evaluated through to_csv_closed
+   (theorem to_csv_closed_form).
+   csv_parse is evaluated through csv_parse_f (Spec/ToCsvFast.v, linear; csv_parse_f = csv_parse is
+   theorem csv_parse_fast_eq of Props/C18.v). *)
 From Coq Require Import ZArith List Bool.
-From EV Require Import Res Arr Val ToCsv ToCsvSpec.
+From EV Require Import Res Arr Val ToCsv ToCsvSpec ToCsvFast ToCsvHist ToCsvHistSpec.
 Import ListNotations.
 Open Scope Z_scope.
 
@@ -103,7 +114,7 @@ Definition kind_of (fk:list (field * Z)) (n:name) : Z :=
 
 Definition reimport_pred (v:variant) (fk:list (field * Z)) (fr:frame) (rf:rowfilter) (cf:colfilter) (file:bytes) : val :=
   match v with
-  | V_fix => vcols (table_columns (csv_parse file))
+  | V_fix => vcols (table_columns (csv_parse_f file))
   | V_orig =>
     (* the unrepaired code removes a filter field from the columns by name (F-C18g) *)
     let rf := match rf with RF_field _ n b => RF_field true n b | _ => rf end in
@@ -112,6 +123,47 @@ Definition reimport_pred (v:variant) (fk:list (field * Z)) (fr:frame) (rf:rowfil
             && existsb (fun n => let k := kind_of fk n in (k =? 1) || (k =? 2)) (spec_names fr rf cf)
          then VErr K_RAISE E_ValueError      (* transform_int / transform_float on zero rows *)
     else vcols (orig_cols (spec_columns fr rf cf))
+  end.
+
+Definition as_cfarg (v:val) : option cfarg :=
+  match v with
+  | VL [] => Some CA_none
+  | VL [VL [VZ 0; nm]] => match as_list nm with Some n => Some (CA_str n) | None => None end
+  | VL [VL [VZ 2; VZ k]] => Some (CA_ref (Z.to_nat k))
+  | _ => None
+  end.
+
+Definition as_call (v:val) : option call :=
+  match v with
+  | VL [fr; rf; cf; VZ chunk] =>
+    match as_frame fr, as_rf rf, as_cfarg cf with
+    | Some fk, Some rf, Some cf => Some (mkcall (map fst fk) rf cf chunk)
+    | _, _, _ => None
+    end
+  | _ => None
+  end.
+
+Definition as_store (v:val) : option store :=
+  match v with VL l => all_some (map as_list2 l) | _ => None end.
+
+Definition v_obs (o:obs) : val :=
+  VL [of_res (fun file => VL [vlist file; vlist3 (csv_parse_f file)]) (fst o); vopt vlist (snd o)].
+
+Definition v_call_spec (st:store) (c:call) : val :=
+  let cf := resolve st (c_cf c) in
+  VL [if (0 <? c_chunk c) && cf_valid (c_fr c) cf then VL [vlist3 (spec_table (c_fr c) (c_rf c) cf)]
+      else VErr K_RAISE E_ValueError].
+
+(* frames with more than BIG_ROWS rows: the repaired code is evaluated through its closed form
+   (Props/C18.v to_csv_closed_form: equal to the statement-level model for every argument) *)
+Definition BIG_ROWS : Z := 4096.
+Definition rows_of (fr:frame) : Z := fold_right (fun f m => Z.max (len (snd f)) m) 0 fr.
+
+Definition run_to_csv (vr:variant) (fr:frame) (rf:rowfilter) (cf:colfilter) (chunk:Z) : res bytes :=
+  match vr with
+  | V_fix => if BIG_ROWS <? rows_of fr then to_csv_closed fr rf cf chunk
+             else to_csv (to_csv_fuel fr chunk) vr fr rf cf chunk
+  | V_orig => to_csv (to_csv_fuel fr chunk) vr fr rf cf chunk
   end.
 
 Definition entry_C18 (v:val) : val :=
@@ -127,10 +179,10 @@ Definition entry_C18 (v:val) : val :=
                   | V_orig =>
                     (* open(filepath, 'w') encodes with the locale encoding: non-ASCII text cannot be written *)
                     if negb (ascii =? 0) && existsb (fun b => 128 <=? b) file then VErr K_RAISE E_ValueError
-                    else VL [vlist file; vlist3 (csv_parse file); reimport_pred vr fk fr rf cf file]
-                  | V_fix => VL [vlist file; vlist3 (csv_parse file); reimport_pred vr fk fr rf cf file]
+                    else VL [vlist file; vlist3 (csv_parse_f file); reimport_pred vr fk fr rf cf file]
+                  | V_fix => VL [vlist file; vlist3 (csv_parse_f file); reimport_pred vr fk fr rf cf file]
                   end)
-               (to_csv (to_csv_fuel fr chunk) vr fr rf cf chunk) in
+               (run_to_csv vr fr rf cf chunk) in
       let spec :=
         if (0 <? chunk) && cf_valid fr cf
         then VL [vlist3 (spec_table fr rf cf); vcols (spec_columns fr rf cf)]
@@ -147,9 +199,15 @@ Definition entry_C18 (v:val) : val :=
           if pandas_valid fr rfp cf then enc (spec_pandas fr rfp cf) else VL [VZ (-998)]]
     | _, _, _ => vbad
     end
+  | VL [VZ 4; VZ copies; st; VL calls] =>
+    match as_store st, all_some (map as_call calls) with
+    | Some st, Some calls =>
+      VL [VL (map v_obs (run_hist (negb (copies =? 0)) st None calls)); VL (map (v_call_spec st) calls)]
+    | _, _ => vbad
+    end
   | VL [VZ 3; s] =>
     match as_list s with
-    | Some s => vlist3 (csv_parse s)
+    | Some s => vlist3 (csv_parse_f s)
     | None => vbad
     end
   | _ => vbad
